@@ -494,6 +494,28 @@ class Body:
             self._defs = d
         return self._defs
 
+    def switch_on(self, local, near=None):
+        """(switch block, terminator) of the switch that tests the bool `local` — directly in block `near`, or, when
+        the value is first bound to a name, the switch whose operand is a single-definition copy of it."""
+        if near is not None:
+            t = self.blocks[near]["t"]
+            if t[0] == "switch" and t[1][0] != "k" and t[1][1][0] == local:
+                return near, t
+        for sb in sorted(self.live_blocks()):
+            t = self.blocks[sb]["t"]
+            if t[0] != "switch" or t[1][0] == "k":
+                continue
+            l = t[1][1][0]
+            for _ in range(6):
+                if l == local:
+                    return sb, t
+                ds = self.defs().get(l, [])
+                if len(ds) == 1 and ds[0][0] == "stmt" and ds[0][4][0] == "use" and ds[0][4][1][0] != "k" and not ds[0][4][1][1][1]:
+                    l = ds[0][4][1][1][0]
+                    continue
+                break
+        return None, None
+
     def local_ty(self, l):
         return self.locals[l][0]
 
